@@ -693,9 +693,15 @@ CMR_ERROR CMRtuTest(CMR* cmr, CMR_CHRMAT* matrix, bool* pisTotallyUnimodular, CM
       assert(!*psubmatrix);
       remainingTime = timeLimit - (clock() - totalClock) * 1.0 / CLOCKS_PER_SEC;
       if (params->naiveSubmatrix)
-        CMR_CALL( CMRtestHereditaryPropertyNaive(cmr, matrix, tuDecomposition, stats, psubmatrix, remainingTime) );
+        error = CMRtestHereditaryPropertyNaive(cmr, matrix, tuDecomposition, stats, psubmatrix, remainingTime);
       else
-        CMR_CALL( CMRtestHereditaryPropertyGreedy(cmr, matrix, tuDecomposition, stats, psubmatrix, remainingTime) );
+        error = CMRtestHereditaryPropertyGreedy(cmr, matrix, tuDecomposition, stats, psubmatrix, remainingTime);
+      if (error != CMR_OKAY && proot && *proot)
+      {
+        /* No result object is handed out together with an error. */
+        CMR_CALL( CMRseymourRelease(cmr, proot) );
+      }
+      CMR_CALL( error );
 
       return CMR_OKAY;
     }
